@@ -281,11 +281,47 @@ func runCsvContract(c *Ctx, scope []*ssa.Function) {
 					file = ci.file
 					colName = ci.name
 				}
+				// the place where the state of the file is known: the call itself, or -- when the column object was made by
+				// a caller and handed to this helper -- every call site of the helper in that caller
+				ctx := []*ssa.BasicBlock{b}
+				ctxFn := f
+				if ci != nil && ci.ctor != nil && ci.ctor.Parent() != f {
+					owner := ci.ctor.Parent()
+					var sites []*ssa.BasicBlock
+					okSites := true
+					var up func(g *ssa.Function, d int)
+					up = func(g *ssa.Function, d int) {
+						callers := p.Callers(g)
+						if len(callers) == 0 || d > 2 {
+							okSites = false
+							return
+						}
+						for _, e := range callers {
+							if e.Caller == owner {
+								sites = append(sites, e.Site.Block())
+							} else if e.Caller != nil {
+								up(e.Caller, d+1)
+							} else {
+								okSites = false
+							}
+						}
+					}
+					up(f, 0)
+					if okSites && len(sites) > 0 {
+						ctx, ctxFn = sites, owner
+					}
+				}
 				// InRow: dominated by file.NextRow() == true
-				inRow := false
-				for _, ce := range dominatingConds(b) {
-					if nc, ok := ce.Cond.(*ssa.Call); ok && calleeName(nc) == nextRow && ce.Val && nc.Call.Args[0] == file {
-						inRow = true
+				inRow := true
+				for _, cb := range ctx {
+					here := false
+					for _, ce := range dominatingConds(cb) {
+						if nc, ok := ce.Cond.(*ssa.Call); ok && calleeName(nc) == nextRow && ce.Val && nc.Call.Args[0] == file {
+							here = true
+						}
+					}
+					if !here {
+						inRow = false
 					}
 				}
 				construct := trimMod(name) + " " + colName
@@ -295,10 +331,16 @@ func runCsvContract(c *Ctx, scope []*ssa.Function) {
 				}
 				if ci != nil && ci.required {
 					// ColumnsChecked: the constructor dominates a missing-columns test whose "nothing missing" edge dominates the site
-					okCols := false
-					for _, ce := range dominatingConds(b) {
-						if mc := missingColumnsTest(ce, file); mc != nil && !ctorAfter(f, file, mc) {
-							okCols = true
+					okCols := true
+					for _, cb := range ctx {
+						here := false
+						for _, ce := range dominatingConds(cb) {
+							if mc := missingColumnsTest(ce, file); mc != nil && !ctorAfter(ctxFn, file, mc) {
+								here = true
+							}
+						}
+						if !here {
+							okCols = false
 						}
 					}
 					if !okCols {
